@@ -78,4 +78,22 @@ theorem c06_push_commit_source_facts :
       "filepath.Dir", "s.ingest", "os.Rename", "os.Remove", "errors.Is", "fmt.Errorf"] := by
   decide
 
+/-- **Every operation of the OCI layout store runs under the store's lock from its first
+    statement to its return** (deferred unlock): readers and writers of tags, content and graph
+    under the read lock, `Delete` and `GC` under the write lock, `saveIndex` under the index
+    lock for its whole body.  `Untag` alone checks its argument for emptiness first.  This is
+    what makes each call one atomic step in the refinement theorems of this file and of C07 /
+    C08 / C09; the race monitors (`s tagrace`, `s pushdelrace`, `s pushreopen`) look for a
+    concrete schedule when it no longer holds. -/
+theorem c06_lock_discipline_source_facts :
+    Gen.ociLockDiscipline =
+      ["Fetch:0:s.sync.RLock:defer s.sync.RUnlock:[]", "Push:0:s.sync.RLock:defer s.sync.RUnlock:[]",
+       "Exists:0:s.sync.RLock:defer s.sync.RUnlock:[]", "Delete:0:s.sync.Lock:defer s.sync.Unlock:[]",
+       "Tag:0:s.sync.RLock:defer s.sync.RUnlock:[]", "Resolve:0:s.sync.RLock:defer s.sync.RUnlock:[]",
+       "Untag:1:s.sync.RLock:defer s.sync.RUnlock:[if reference == \"\"]",
+       "Predecessors:0:s.sync.RLock:defer s.sync.RUnlock:[]", "Tags:0:s.sync.RLock:defer s.sync.RUnlock:[]",
+       "SaveIndex:0:s.sync.RLock:defer s.sync.RUnlock:[]", "saveIndex:0:s.indexLock.Lock:defer s.indexLock.Unlock:[]",
+       "GC:0:s.sync.Lock:defer s.sync.Unlock:[]"] := by
+  decide
+
 end Oras.Props.C06
